@@ -1,14 +1,25 @@
 #!/bin/sh
-# tools/seed_all.sh [--confirm] : run every seeded change against its check(s)
+# tools/seed_all.sh [--confirm] [--lane i/n] : run every seeded change against
+# its check(s).  With --lane, only every n-th seed (used by seed_lanes.sh, which
+# runs n copies of /verif against n scratch worktrees of /repo in parallel).
 cd "$(dirname "$0")/.."
-conf="--skip-confirm"; [ "$1" = "--confirm" ] && conf=""
-for d in seeded/C*-[0-9]; do
+conf="--skip-confirm"; lane=0; nl=1
+while [ $# -gt 0 ]; do
+  case $1 in --confirm) conf="";; --lane) lane=${2%/*}; nl=${2#*/}; shift;; esac
+  shift
+done
+k=0
+for d in seeded/C[0-9][0-9]-[0-9]*; do
+  k=$((k+1))
+  [ $((k % nl)) -eq $lane ] || continue
   s=$(basename $d)
   props=""
-  case $s in C07-3) props="--props C07,C08";; C01-6|C01-7) props="--props C01,C11";;
-    C01-8) props="--props C01,C03,C12";; C07-8) props="--props C07,C09";; esac
+  case $s in C07-3) props="--props C07,C08";; C01-6|C01-7|C01-10) props="--props C01,C11";;
+    C01-8) props="--props C01,C03,C12";; C07-8|C07-10) props="--props C07,C09";;
+    C02-10) props="--props C02,C16";; C13-10) props="--props C13,C12,C01";;
+    C08-10) props="--props C08,C11";; esac
   [ -f $d/NOTE.md ] && { echo "$s neutralised (see NOTE.md)"; continue; }
-  tools/rebase_seed.sh $d >/dev/null 2>&1
+  [ "${SEED_REPO:-/repo}" = /repo ] && tools/rebase_seed.sh $d >/dev/null 2>&1
   r=$(python3 tools/seedtest.py $d $conf $props 2>&1 | grep -E '"confirmed"|"caught"' | tr -d ' \n')
   echo "$s $r"
 done
